@@ -164,7 +164,7 @@ var rgTime = time.Unix(1500000000, 0).UTC()
 var pool = []string{"n0", "n1", "n2", "n3", "n4", "n5"}
 
 var kinds = []string{"addref", "addref", "addref_clone", "addref_difflen", "addref_md5", "rmref", "rmref", "setname", "readd_ref",
-	"addrg", "rmrg", "setrgname", "addpg", "rmpg", "setuid", "clone", "merge", "unmarshal_sq", "unmarshal_rg", "unmarshal_pg", "unmarshal_co", "reparse"}
+	"addrg", "rmrg", "setrgname", "addpg", "rmpg", "setuid", "clone", "merge", "rm_foreign", "unmarshal_sq", "unmarshal_rg", "unmarshal_pg", "unmarshal_co", "reparse"}
 
 func drawB(t *rapid.T) BCase {
 	c := BCase{H: sb.HSpecGen(0, 3).Draw(t, "header")}
@@ -285,6 +285,44 @@ func runB(c BCase, rec *h.Rec) {
 					w.freeRefs = append(w.freeRefs, r)
 					removed = true
 				}
+			case "rm_foreign":
+				// an item that belongs to ANOTHER live header (a clone holds items with
+				// the same names and ids): the call must be refused and change nothing
+				if len(w.hs) < 2 {
+					return
+				}
+				other := w.hs[(op.H+1+op.I)%len(w.hs)]
+				if other == hd {
+					return
+				}
+				before, _ := hd.MarshalText()
+				otherBefore, _ := other.MarshalText()
+				var err error
+				switch op.N % 3 {
+				case 0:
+					if len(other.Refs()) == 0 {
+						return
+					}
+					err = hd.RemoveReference(other.Refs()[op.I%len(other.Refs())])
+				case 1:
+					if len(other.RGs()) == 0 {
+						return
+					}
+					err = hd.RemoveReadGroup(other.RGs()[op.I%len(other.RGs())])
+				default:
+					if len(other.Progs()) == 0 {
+						return
+					}
+					err = hd.RemoveProgram(other.Progs()[op.I%len(other.Progs())])
+				}
+				after, _ := hd.MarshalText()
+				otherAfter, _ := other.MarshalText()
+				if err == nil || !bytes.Equal(before, after) || !bytes.Equal(otherBefore, otherAfter) {
+					rec.Failf("%s: removing an item that belongs to another header returned %v (header changed: %v, other header changed: %v)", what, err, !bytes.Equal(before, after), !bytes.Equal(otherBefore, otherAfter))
+					failed = true
+					return
+				}
+				opErr = err
 			case "readd_ref":
 				if len(w.freeRefs) == 0 {
 					return
